@@ -16,6 +16,7 @@ pub struct C20 {
     n_rip_pairs: u64,
     n_igs_mixed: u64,
     igs_mixed_len: u32,
+    n_rip_viewport: u64,
 }
 
 /// (level prefix, command letter)
@@ -380,8 +381,49 @@ impl C20 {
             (self.rip_pair_case(k - self.n_rip_uniform - self.n_rip_mixed - self.n_igs_table), "rip-pairs")
         } else if k < self.n_rip_uniform + self.n_rip_mixed + self.n_igs_table + self.n_rip_pairs + self.n_igs_mixed {
             (self.igs_mixed_case(k - self.n_rip_uniform - self.n_rip_mixed - self.n_igs_table - self.n_rip_pairs, self.igs_mixed_len), "igs-mixed")
+        } else if k < self.n_rip_uniform + self.n_rip_mixed + self.n_igs_table + self.n_rip_pairs + self.n_igs_mixed + self.n_rip_viewport {
+            (self.rip_viewport_case(k - self.n_rip_uniform - self.n_rip_mixed - self.n_igs_table - self.n_rip_pairs - self.n_igs_mixed), "rip-viewport")
         } else {
             (self.random_case(ctx, k), "random")
+        }
+    }
+
+    fn rip_viewport_case(&self, k: u64) -> StreamCase {
+        // every RIP command with meaningful (in-range) coordinates on every kind of viewport: the enumerations over the
+        // digits {0,1,Z} only produce viewports glued to the top-left corner or degenerate ones. Viewports: full screen,
+        // offset from the top, offset from the left, a window in the middle, the bottom-right quarter, a tiny one.
+        const VIEWPORTS: [(i64, i64, i64, i64); 6] = [(0, 0, 639, 349), (0, 100, 639, 300), (200, 0, 500, 349), (100, 100, 300, 200), (320, 175, 639, 349), (10, 200, 20, 210)];
+        let mut r = k;
+        let pat = r % 4;
+        r /= 4;
+        let (lvl, c) = RIP_CMDS[(r % RIP_CMDS.len() as u64) as usize];
+        r /= RIP_CMDS.len() as u64;
+        let (x0, y0, x1, y1) = VIEWPORTS[(r % VIEWPORTS.len() as u64) as usize];
+        let (w, h) = (x1 - x0, y1 - y0);
+        // twelve two-digit numbers: coordinates relative to the viewport / absolute, inside / at the edges / beyond
+        let nums: [i64; 12] = match pat {
+            0 => [10, 10, w - 10, h - 10, w / 2, h / 2, 5, 5, 15, 0, 1, 2],
+            1 => [w / 2, h / 2, 20, 10, 0, 360, w / 4, h / 4, 1, 1, 0, 0],
+            2 => [0, 0, w, h, w + 40, h + 40, w, 0, 0, h, 3, 1],
+            _ => [x0 + 5, y0 + 5, x1 - 5, y1 - 5, x0, y1, x1, y0, 7, 2, 1, 0],
+        };
+        let mut bytes = b"!".to_vec();
+        rip_cmd(&mut bytes, "", b'v', format!("{}{}{}{}", b36(x0, 2), b36(y0, 2), b36(x1, 2), b36(y1, 2)).as_bytes());
+        rip_cmd(&mut bytes, "", b'S', b"010C");
+        rip_cmd(&mut bytes, "", b'c', b"0F");
+        let params: String = nums.iter().map(|n| b36((*n).clamp(0, 1295), 2)).collect();
+        rip_cmd(&mut bytes, lvl, c, params.as_bytes());
+        // and a flood fill from inside the viewport afterwards (the drawing command may have drawn its border)
+        rip_cmd(&mut bytes, "", b'F', format!("{}{}0F", b36((w / 2 + 1).clamp(0, 1295), 2), b36((h / 2 + 1).clamp(0, 1295), 2)).as_bytes());
+        bytes.extend_from_slice(b"\n");
+        StreamCase {
+            emu: "rip".into(),
+            music: 0,
+            w: 80,
+            h: 43,
+            alloc: true,
+            prefix: vec![],
+            bytes,
         }
     }
 }
@@ -492,6 +534,7 @@ pub fn exec(ctx: &mut Ctx, case: &StreamCase, class: &str) {
     // shrink (first occurrence per worker), then key on the command that fails
     let mut cur = case.clone();
     if !ctx.replay && ctx.seen(&key0) == 0 && obs.measure.cpu_ns < 500_000_000 {
+        ctx.violation_pending(&key0, json!({"emu": case.emu, "prefix": printable(&case.prefix), "stream": printable(&case.bytes)}), serde_json::to_value(case).unwrap());
         let fails = |c: &StreamCase| -> bool {
             let (o, _) = run_stream(c, opts_for(c));
             key_of(&o).as_deref() == Some(key0.as_str())
@@ -551,7 +594,7 @@ impl Prop for C20 {
         "C20"
     }
     fn rule(&self) -> &'static str {
-        "streams are fed character by character to the real RIPscrip (640x350 BGI canvas, file commands pointed at an empty scratch directory) and IGS (DrawExecutor) emulations under the panic monitor, the pixel work counter (budget 8*(n+2)*canvas), the virtual blocking monitor (any sleep > 0 ms raises) and, after every command terminator, an assertion that get_picture_data() returns width*height*4 bytes; pending IGS loop steps are drained through get_next_action. cases: (rip-uniform) every RIP level-0/1/9 command x parameter length 0..=24 x {all-0, all-1, all-Z} x 2 terminators; (rip-mixed) every command x every string over {0,1,Z} up to length 6; (igs-table) every IGS command x 0..=12 parameters x 7 value classes incl. negative and 2^31-1; (rip-pairs) every ordered pair of RIP commands, each with 24 parameter characters of one class {0,1,Z}: state command then drawing command; (igs-mixed) every IGS command x every parameter vector of length 0..=4 (thorough 5) over {0,1,2,3,40,9999} and of the next five lengths over {0,9999}, followed by a drawing probe (line, box, marker, text; after vectors of length <= 3 also circle, ellipse, arcs, pie slices, rounded / filled rectangle, poly line / fill, flood fill and line-to, in-canvas and far out of canvas, so that border / hollow / mode / colour state set by the first command is used); (random) seeded mixed/over-long/truncated parameter lists, continuation lines, text variables, loops with delays, chained commands on a random state prefix. distinct_nontrivial = distinct (emulation, stream head, result kinds, panicked, picture observed) fingerprints"
+        "streams are fed character by character to the real RIPscrip (640x350 BGI canvas, file commands pointed at an empty scratch directory) and IGS (DrawExecutor) emulations under the panic monitor, the pixel work counter (budget 8*(n+2)*canvas), the virtual blocking monitor (any sleep > 0 ms raises) and, after every command terminator, an assertion that get_picture_data() returns width*height*4 bytes; pending IGS loop steps are drained through get_next_action. cases: (rip-uniform) every RIP level-0/1/9 command x parameter length 0..=24 x {all-0, all-1, all-Z} x 2 terminators; (rip-mixed) every command x every string over {0,1,Z} up to length 6; (igs-table) every IGS command x 0..=12 parameters x 7 value classes incl. negative and 2^31-1; (rip-pairs) every ordered pair of RIP commands, each with 24 parameter characters of one class {0,1,Z}: state command then drawing command; (igs-mixed) every IGS command x every parameter vector of length 0..=4 (thorough 5) over {0,1,2,3,40,9999} and of the next five lengths over {0,9999}, followed by a drawing probe (line, box, marker, text; after vectors of length <= 3 also circle, ellipse, arcs, pie slices, rounded / filled rectangle, poly line / fill, flood fill and line-to, in-canvas and far out of canvas, so that border / hollow / mode / colour state set by the first command is used); (rip-viewport) every RIP command with four patterns of in-range coordinates (inside, centre + radii / angles, edges and beyond, absolute screen coordinates) on six viewports (full, offset from the top, offset from the left, a middle window, the bottom-right quarter, tiny), fill style and colour set, followed by a flood fill from inside the viewport; (random) seeded mixed/over-long/truncated parameter lists, continuation lines, text variables, loops with delays, chained commands on a random state prefix. distinct_nontrivial = distinct (emulation, stream head, result kinds, panicked, picture observed) fingerprints"
     }
     fn meta(&self, _ctx: &Ctx) -> Value {
         json!({"floor_evaluations": 5000, "floor_distinct": 300, "watchdog_s": 60, "watchdog_is_violation": true, "plain_pass": "quick",
@@ -566,7 +609,8 @@ impl Prop for C20 {
         self.igs_mixed_len = ctx.tier.pick(4, 5);
         let l = self.igs_mixed_len;
         self.n_igs_mixed = ((0..=l).map(|i| 6u64.pow(i)).sum::<u64>() + (l + 1..=l + 5).map(|i| 2u64.pow(i)).sum::<u64>()) * IGS_CMDS.len() as u64;
-        self.n_rip_uniform + self.n_rip_mixed + self.n_igs_table + self.n_rip_pairs + self.n_igs_mixed + ctx.tier.pick(30_000, 1_500_000)
+        self.n_rip_viewport = 4 * 6 * RIP_CMDS.len() as u64;
+        self.n_rip_uniform + self.n_rip_mixed + self.n_igs_table + self.n_rip_pairs + self.n_igs_mixed + self.n_rip_viewport + ctx.tier.pick(30_000, 1_500_000)
     }
     fn run_case(&mut self, ctx: &mut Ctx, k: u64) {
         let (case, class) = self.case_for(ctx, k);
